@@ -171,15 +171,35 @@ def run_family(name, prop, hists_by_stable, reread, shards=8, timeout=3000, tail
     return out, scn_file, n, build_s
 
 
+def interesting(h):
+    """Histories in which a transaction met a concurrent one: an operation failed in the model (conflict) or two
+    different handles wrote (the second one is stale)."""
+    steps = h[1:]
+    writers = {st.get("h") for st in steps if st.get("op") not in ("checkout",)}
+    return any(st.get("res") not in (None, "ok") for st in steps) or len(writers) > 1
+
+
 def sample(hists, k, rnd):
+    """Seeded stratified sample: concurrent histories first (up to 70% of the cap), the rest at random."""
     if len(hists) <= k:
         return hists
-    return rnd.sample(hists, k)
+    hot = [h for h in hists if interesting(h)]
+    cold = [h for h in hists if not interesting(h)]
+    n_hot = min(len(hot), int(k * 0.7))
+    picked = rnd.sample(hot, n_hot) if len(hot) > n_hot else hot
+    rest = k - len(picked)
+    picked += rnd.sample(cold, min(rest, len(cold)))
+    if len(picked) < k:
+        left = [h for h in hot if h not in picked]
+        picked += rnd.sample(left, min(k - len(picked), len(left)))
+    return picked
 
 
 def generate(name, prop, c, simulate=None, timeout=1500):
+    # genview keeps the last step apart, so every (state, last operation) pair is printed: failing operations are kept
     hists, stats = vlib.tlc_gen(f"{prop}-{name}", "LanceTable", c.replace("INVARIANTS " + ALL_INVS, "INVARIANTS GenPrint")
-                                .replace(ALL_PROPS, ""), tag="SCN", workers=1, timeout=timeout, simulate=simulate)
+                                .replace(ALL_PROPS, "").replace("VIEW view", "VIEW genview"), tag="SCN", workers=1,
+                                timeout=timeout, simulate=simulate)
     return hists, stats
 
 
